@@ -269,6 +269,17 @@ TrDialDone ==
 -----------------------------------------------------------------------------
 (* Inbound: handle_incoming / handle_incoming_task *)
 
+(* an adversary endpoint (raw QUIC, valid certificate of its own) finished TLS as a dialer *)
+TrAdvDialTls ==
+  /\ IsEvent("adv.dial_tls")
+  /\ Cur.gid \notin DOMAIN conns
+  /\ conns' = With(conns, Cur.gid,
+                   [d |-> N, l |-> Cur.to, ltls |-> FALSE, admit |-> "none",
+                    ackSent |-> FALSE, ackRead |-> FALSE, ackConf |-> FALSE])
+  /\ UNCHANGED <<vars, pendEv, tasks, spawnQ, nextTick, phase, subs, subPos, addrNode, lastAdd,
+                 replies, closeT, faultT, idle, ka, runStart, lastSend, quietLen, callListed,
+                 pathOut, pathIn, closingH>>
+
 TrInAccepted ==
   /\ IsEvent("in.accepted")
   /\ phase[N] = "running"
@@ -681,7 +692,10 @@ TrSettled ==
 TrRpcCall ==
   /\ IsEvent("obs.rpc_call")
   /\ callListed' = With(callListed, Cur.nonce,
-                         [listed |-> phase[N] # "done" /\ Cur.to \in DOMAIN active[N], to |-> Cur.to])
+                         [listed |-> IF N \in DOMAIN phase
+                                     THEN phase[N] # "done" /\ Cur.to \in DOMAIN active[N]
+                                     ELSE TRUE,        \* a raw call written by an adversary endpoint
+                          to |-> Cur.to])
   /\ UNCHANGED <<vars, pendEv, conns, tasks, spawnQ, nextTick, phase, subs, subPos, addrNode,
                  lastAdd, replies, closeT, faultT, idle, ka, runStart, lastSend, quietLen,
                  pathOut, pathIn, closingH>>
@@ -739,7 +753,8 @@ Ignored == {"conn.new", "tmo.set", "tmo.fire", "rpc.finish", "rpc.recv", "rpc.dr
             "srv.accept", "srv.decoded", "srv.ret", "srv.end",
             "app.start", "app.end", "app.drop",
             "obs.connect_call", "obs.disconnect", "h.exit", "shut.idle", "shut.rebound",
-            "obs.note", "obs.sub_lagged", "obs.known_finding"}
+            "obs.note", "obs.sub_lagged", "obs.known_finding", "adv.stream", "app.hostile",
+            "app.hostile_end", "obs.alive", "obs.rpc_quiet", "obs.rpc_cfg", "obs.rpc_abandon"}
 
 TrIgnored ==
   /\ l <= Len(Rec) /\ Cur.ev \in Ignored /\ l' = l + 1 /\ now' = Cur.t
@@ -750,7 +765,7 @@ TrIgnored ==
 TraceNext ==
   \/ TrReset \/ TrNodeStart \/ TrAddr \/ TrMgrStart \/ TrKnownInsert \/ TrKnownRemove \/ TrFault
   \/ TrTick \/ TrConnectReq
-  \/ TrDialStart \/ TrDialTls \/ TrDialDone
+  \/ TrDialStart \/ TrDialTls \/ TrDialDone \/ TrAdvDialTls
   \/ TrInAccepted \/ TrInStart \/ TrInTls \/ TrAdmission
   \/ TrAckSent \/ TrAckRead \/ TrAckConfirmed \/ TrInDone
   \/ TrApEvent \/ TrApAdd \/ TrMgrResult \/ TrApRemove \/ TrApRemoveId \/ TrHStart \/ TrHClosing
